@@ -398,3 +398,6 @@ def run_case(case):
 
 def known_match(case, failure, entry):
     return False
+
+
+RULE += (" " + 'Further bases/sessions: a last element that reserves more space than the session writes; a base with a dense run of 130..200 references of one tag followed by reference 1000, with new references taken from Htagnewref.')
